@@ -256,7 +256,6 @@ pub open spec fn op_effect<Sz, N, Sy, C, B>(o: St<Sz, N, Sy, C, B>, n: St<Sz, N,
     &&& grows(o, n)
     &&& n.regs.len() == o.regs.len() - pops + 1
     &&& n.regs.drop_last() =~= o.regs.take(o.regs.len() - pops)
-    &&& n.cells.contains_key(n.regs.last())
     &&& n == (St { cells: n.cells, data_len: n.data_len, regs: n.regs, host: n.host, ..o })
 }
 
@@ -265,11 +264,16 @@ pub open spec fn top<Sz, N, Sy, C, B>(n: St<Sz, N, Sy, C, B>) -> Cell<Sz, N, Sy,
     n.cells[n.regs.last()]
 }
 
+/// the top of the operand stack is a valid cell of type `t`
+pub open spec fn top_is<Sz, N, Sy, C, B>(n: St<Sz, N, Sy, C, B>, t: GarnishDataType) -> bool {
+    n.regs.len() > 0 && n.cells.contains_key(n.regs.last()) && n.cells[n.regs.last()].ty == t
+}
+
 /// C09 at the instruction: `Some(v)` becomes the number v, `None` becomes unit
 pub open spec fn top_is_result<Sz, N, Sy, C, B>(n: St<Sz, N, Sy, C, B>, x: Option<N>) -> bool {
     match x {
-        Some(v) => top(n).ty == GarnishDataType::Number && top(n).num == v,
-        None => top(n).ty == GarnishDataType::Unit,
+        Some(v) => top_is(n, GarnishDataType::Number) && top(n).num == v,
+        None => top_is(n, GarnishDataType::Unit),
     }
 }
 
@@ -278,7 +282,7 @@ pub open spec fn top_is_result<Sz, N, Sy, C, B>(n: St<Sz, N, Sy, C, B>, x: Optio
 pub open spec fn deferred_one<Sz, N, Sy, C, B>(o: St<Sz, N, Sy, C, B>, n: St<Sz, N, Sy, C, B>) -> bool {
     &&& n.host.len() == o.host.len() + 1
     &&& n.host.drop_last() =~= o.host
-    &&& (!n.host.last().accepted ==> top(n).ty == GarnishDataType::Unit)
+    &&& (!n.host.last().accepted ==> top_is(n, GarnishDataType::Unit))
 }
 
 pub open spec fn deferred_once<Sz, N, Sy, C, B>(o: St<Sz, N, Sy, C, B>, n: St<Sz, N, Sy, C, B>, call: HostCall<Sz, Sy>) -> bool {
@@ -288,6 +292,17 @@ pub open spec fn deferred_once<Sz, N, Sy, C, B>(o: St<Sz, N, Sy, C, B>, n: St<Sz
 /// C10: exactly two values are false - unit and `$!`
 pub open spec fn truthy(t: GarnishDataType) -> bool {
     t != GarnishDataType::False && t != GarnishDataType::Unit
+}
+
+/// left operand types for which indexing by a number has a defined result
+pub open spec fn indexable_by_number(t: GarnishDataType) -> bool {
+    t == GarnishDataType::Pair || t == GarnishDataType::List || t == GarnishDataType::CharList || t == GarnishDataType::ByteList
+    || t == GarnishDataType::SymbolList || t == GarnishDataType::Range || t == GarnishDataType::Slice || t == GarnishDataType::Concatenation
+}
+
+/// left operand types for which a look-up by symbol has a defined result
+pub open spec fn indexable_by_symbol(t: GarnishDataType) -> bool {
+    t == GarnishDataType::Pair || t == GarnishDataType::List || t == GarnishDataType::Slice || t == GarnishDataType::Concatenation
 }
 
 /// second operand from the top / top operand of the stack before the instruction
